@@ -18,9 +18,10 @@ use std::collections::BTreeMap;
 pub fn run_a(s: &mut Src, ctx: &mut Ctx) -> Verdict {
     let cfg = gen_cfg(s, false);
     let max_rules = if cfg.max_depth >= 5 { 5 } else { 8 };
-    let kb = gen_kb(s, max_rules, Some(false));
-    let st = crate::bc::gen_store(s, &kb);
+    let mut kb = gen_kb(s, max_rules, Some(false));
+    let mut st = crate::bc::gen_store(s, &kb);
     let goal = gen_goal(s, &kb);
+    apply_str_style(s, &mut kb, &mut st);
     if probe_only() {
         return Verdict::Pass;
     }
